@@ -1,5 +1,5 @@
 (** Correspondence and monitors for C19 (regeneration of resolver files). *)
-From GV Require Import Base.Prelude Model.Rewrite.
+From GV Require Import Base.Prelude Model.Rewrite Model.Regen.
 Open Scope string_scope.
 Open Scope list_scope.
 
@@ -9,7 +9,6 @@ Record c19_case := {
   c_after : list rfile;      (* the resolver files after regeneration (all of them parse) *)
   c_refs : list (string * list string) }.   (* per regenerated file: package identifiers its code still refers to *)
 
-Definition find_file (l : list rfile) (n : string) : option rfile := find (fun f => String.eqb (f_name f) n) l.
 Definition regenerated (c : c19_case) (n : string) : bool := existsb (fun l => String.eqb (l_file l) n) (c_live c).
 Definition ostr_eqb := option_eqb String.eqb.
 
@@ -36,6 +35,29 @@ Definition corr_live (c : c19_case) (l : live) : bool :=
                 end)
   end.
 
+(** the declarations of a regenerated file are exactly those of the model's run (Model.Regen), as a set of
+    kinds and names: nothing else is emitted, nothing the schema calls for is missing *)
+Definition kind_eqb (a b : dkind) : bool :=
+  match a, b with
+  | KMethod r n, KMethod r' n' => String.eqb r r' && String.eqb n n'
+  | KFunc n, KFunc n' => String.eqb n n'
+  | KType n, KType n' => String.eqb n n'
+  | KImport, KImport => true
+  | KOther, KOther => true
+  | _, _ => false
+  end.
+Definition model_file (c : c19_case) (l : live) : rfile :=
+  regen_file (fun _ _ _ => "") (fun _ => "") (fun _ => "") (fun _ _ => "") (fun _ _ => "") copied (c_live c) (c_before c) l.
+Definition corr_decls (c : c19_case) (l : live) : bool :=
+  match find_file (c_after c) (l_file l) with
+  | None => false
+  | Some af =>
+      let mf := model_file c l in
+      forallb (fun d => existsb (fun x => kind_eqb (d_kind d) (d_kind x)) (f_decls af)) (f_decls mf) &&
+      forallb (fun x => is_import x || existsb (fun d => kind_eqb (d_kind d) (d_kind x)) (f_decls mf)) (f_decls af) &&
+      ostr_eqb (f_remaining af) (f_remaining mf)
+  end.
+
 Definition decl_eqb (a b : decl) : bool := String.eqb (d_src a) (d_src b).
 Definition corr_stale (c : c19_case) (bf : rfile) : bool :=
   regenerated c (f_name bf) ||
@@ -45,7 +67,7 @@ Definition corr_stale (c : c19_case) (bf : rfile) : bool :=
   end.
 
 Definition c19_corr (c : c19_case) : bool :=
-  forallb (corr_live c) (c_live c) && forallb (corr_stale c) (c_before c).
+  forallb (corr_live c) (c_live c) && forallb (corr_decls c) (c_live c) && forallb (corr_stale c) (c_before c).
 
 (** ---- the property on what is observed ---- *)
 (** every resolver method present after regeneration that existed before has its body (and doc text) unchanged *)
